@@ -82,7 +82,13 @@ type c15Point struct {
 	// Nested: at this probe invocation (counted from 1; 0 = never) the fact method runs another knowledge base
 	// to its end on the same GruleEngine value with plain Execute, before the outer run goes on
 	Nested int `json:"nested_run_on_the_same_engine_at_probe,omitempty"`
+	// Cause: the context is one of package context's cause-carrying kinds (WithCancelCause, WithDeadlineCause,
+	// WithTimeoutCause) and ends with an application cause of its own; its Err() is Canceled / DeadlineExceeded
+	// all the same, and that is what Execute has to return
+	Cause bool `json:"context_carries_a_cause,omitempty"`
 }
+
+var errC15Cause = errors.New("service is shutting down")
 
 type c15Result struct {
 	Err        error
@@ -148,7 +154,16 @@ func c15Run(c *val.Case, prep *val.Prepared, pt c15Point) (*c15Result, error) {
 		}
 		ctx = cctx
 	case "pre":
-		if pt.DL {
+		if pt.Cause {
+			parent := context.Background()
+			if pt.DL {
+				var pc context.CancelFunc
+				parent, pc = context.WithTimeoutCause(parent, time.Hour, errC15Cause)
+				defer pc()
+			}
+			cctx, cc := context.WithCancelCause(parent)
+			ctx, cancel = cctx, func() { cc(errC15Cause) }
+		} else if pt.DL {
 			ctx, cancel = context.WithTimeout(context.Background(), time.Hour)
 		} else {
 			ctx, cancel = context.WithCancel(context.Background())
@@ -157,7 +172,11 @@ func c15Run(c *val.Case, prep *val.Prepared, pt c15Point) (*c15Result, error) {
 		res.Cancelled = true
 		res.AtCancel = obs.Capture(live, dc)
 	case "deadline":
-		ctx, cancel = context.WithDeadline(context.Background(), time.Now().Add(-time.Hour))
+		if pt.Cause {
+			ctx, cancel = context.WithDeadlineCause(context.Background(), time.Now().Add(-time.Hour), errC15Cause)
+		} else {
+			ctx, cancel = context.WithDeadline(context.Background(), time.Now().Add(-time.Hour))
+		}
 		defer cancel()
 		res.Cancelled = true
 		res.AtCancel = obs.Capture(live, dc)
@@ -167,6 +186,15 @@ func c15Run(c *val.Case, prep *val.Prepared, pt c15Point) (*c15Result, error) {
 			ectx := newCountingCtx(0)
 			ectx.deadline = time.Now().Add(time.Hour)
 			ctx, cancel = ectx, ectx.expire
+		} else if pt.Cause {
+			parent := context.Background()
+			if pt.DL {
+				var pc context.CancelFunc
+				parent, pc = context.WithTimeoutCause(parent, time.Hour, errC15Cause)
+				defer pc()
+			}
+			cctx, cc := context.WithCancelCause(parent)
+			ctx, cancel = cctx, func() { cc(errC15Cause) }
 		} else if pt.DL {
 			// a cancellable child of a context with a far deadline
 			parent, pcancel := context.WithTimeout(context.Background(), time.Hour)
@@ -417,11 +445,18 @@ func TestC15(t *testing.T) {
 				pts = append(pts, p)
 			}
 		}
+		// and every point with a context of package context once more with a cause-carrying context
+		for _, p := range append([]c15Point{}, pts...) {
+			if !p.Expire && (p.Kind == "event" || p.Kind == "probe" || p.Kind == "pre" || p.Kind == "deadline") {
+				p.Cause = true
+				pts = append(pts, p)
+			}
+		}
 		// and the points of (a) and (b) once more with a nested run on the same engine value at the first probe
 		// invocation (the engine value holds no per-run state, so runs may nest or overlap)
 		if base.Probes >= 1 {
 			for _, p := range append([]c15Point{}, pts...) {
-				if !p.DL && !p.Expire && (p.Kind == "errcall" || p.Kind == "event" || p.Kind == "probe") {
+				if !p.DL && !p.Expire && !p.Cause && (p.Kind == "errcall" || p.Kind == "event" || p.Kind == "probe") {
 					p.Nested = 1
 					pts = append(pts, p)
 				}
@@ -457,7 +492,7 @@ func TestC15(t *testing.T) {
 				}
 			}
 			nt := r.Cancelled && firingsBefore >= 1
-			labels := append(featLabels(rs), "point:"+pt.Kind, fmt.Sprintf("reached:%v", r.Cancelled), fmt.Sprintf("future_deadline:%v", pt.DL), fmt.Sprintf("ends_by_deadline:%v", pt.Expire), fmt.Sprintf("nested_run:%v", pt.Nested > 0))
+			labels := append(featLabels(rs), "point:"+pt.Kind, fmt.Sprintf("reached:%v", r.Cancelled), fmt.Sprintf("future_deadline:%v", pt.DL), fmt.Sprintf("ends_by_deadline:%v", pt.Expire), fmt.Sprintf("nested_run:%v", pt.Nested > 0), fmt.Sprintf("cause_carrying_context:%v", pt.Cause))
 			if r.InFiringOf != "" {
 				labels = append(labels, "cancelled_inside_action_list")
 			}
